@@ -12,34 +12,16 @@ def setup(E):
     auth.declare(E)
     # the pin and the failure count live in the server's AuthHandler: it is created once, at the first NEWKEYS, and a
     # re-key (which may complete in the middle of the authentication phase) must keep the one that exists
-    T = "paramiko.transport.Transport."
-    E2 = type(E)()
-    E2.auto_opaque = True
-    E2.declare_ghost(handlers_created="int")
-    E2.declare_class("paramiko.transport.Transport", {
-        "server_mode": "bool", "auth_handler": "opt[opaque:AuthH]", "initial_kex_done": "bool", "in_kex": "bool",
-        "completion_event": "opt[opaque:Event]", "packetizer": "opaque:Pk", "clear_to_send_lock": "opaque:Lock",
-        "clear_to_send": "opaque:Event", "K": "opt[int]", "kex_engine": "opt[opaque:Kex]", "local_kex_init": "opt[bytes]",
-        "remote_kex_init": "opt[bytes]", "authenticated": "bool"})
-    E2.contract(T + "_activate_inbound", returns="none", raises={"SSHException": "True"}, modifies=[])
-    E2.contract(T + "is_authenticated", returns="bool", modifies=[])
-    E2.contract("paramiko.auth_handler.AuthHandler", argnames=["t"], returns="opaque:AuthH", constructor=True,
-                ghost={"handlers_created": "ghost('handlers_created') + 1"})
-    E2.contract("Pk.need_rekey", argnames=["self"], returns="bool")
-    E2.contract("Pk._initial_kex_done.setter", argnames=["self", "v"], returns="none")
-    E2.contract("Event.set", argnames=["self"], returns="none")
-    c = dict(params={"m": "opaque:Msg"}, returns="none", raises={"SSHException": "True"},
-             ensures={"an_existing_auth_handler_survives_a_rekey":
-                      "implies(notnone(old(self.auth_handler)), opaque_id(self.auth_handler) == old(opaque_id(self.auth_handler))"
-                      " and ghost('handlers_created') == old(ghost('handlers_created')))",
-                      "a_server_gets_its_handler_at_the_first_newkeys":
-                      "implies(self.server_mode and isnone(old(self.auth_handler)), notnone(self.auth_handler)"
-                      " and ghost('handlers_created') == old(ghost('handlers_created')) + 1)"})
+    from contracts import transport
     global TARGETS
     TARGETS = [t for t in TARGETS if not (isinstance(t, tuple) and t[1] == "handler-lifetime")]
-    TARGETS.append((T + "_parse_newkeys", "handler-lifetime", dict(c, **{
-        "+replace": True, "+contracts": dict(E2.contracts), "+fields": {k: dict(d["fields"]) for k, d in E2.classdecl.items()},
-        "+engine": {"auto_opaque": True, "ghost_types": dict(E.ghost_types, **E2.ghost_types)}})))
+    TARGETS.append(transport.newkeys_variant(E, "handler-lifetime", {
+        "an_existing_auth_handler_survives_a_rekey":
+            "implies(notnone(old(self.auth_handler)), opaque_id(self.auth_handler) == old(opaque_id(self.auth_handler))"
+            " and ghost('handlers_created') == old(ghost('handlers_created')))",
+        "a_server_gets_its_handler_at_the_first_newkeys":
+            "implies(self.server_mode and isnone(old(self.auth_handler)), notnone(self.auth_handler)"
+            " and ghost('handlers_created') == old(ghost('handlers_created')) + 1)"}))
 
 
 CLAIMED = True
